@@ -18,7 +18,7 @@ PROPS["C05"] = dict(
 PROPS["C03"] = dict(
     modules=["Proofs.C03"],
     theorems=['Goflow.C03.field_roundtrip', 'Goflow.C03.optionField_roundtrip', 'Goflow.C03.templateSet_roundtrip', 'Goflow.C03.optionsTemplateSet_roundtrip_v9', 'Goflow.C03.optionsTemplateSet_roundtrip_ipfix', 'Goflow.C03.record_roundtrip', 'Goflow.C03.encRecord_length_ge', 'Goflow.C03.dataSet_roundtrip', 'Goflow.C03.optionsDataSet_roundtrip', 'Goflow.C03.flowSet_roundtrip', 'Goflow.C03.messageCommon_roundtrip', 'Goflow.C03.roundtrip'],
-    generators=[dict(name="C03", quick=1500, thorough=100000)],
+    generators=[dict(name="C03", quick=4000, thorough=100000)],
     harness=["impl"],
     level_text="Theorem roundtrip: decode (encode m) = m for every well-formed NetFlow v9 / IPFIX message against an RFC encoder (template store update, padding, enterprise bit, variable length), plus the differential run of the encoder's output through the Go decoder.",
 )
@@ -27,7 +27,7 @@ PROPS["C04"] = dict(
     modules=["Proofs.C04", "Proofs.C04Roundtrip"],
     theorems=['Goflow.C04.xdrString_roundtrip', 'Goflow.C04.ip_roundtrip', 'Goflow.C04.unknown_record_skipped', 'Goflow.C04.unknown_flow_record',
               'Goflow.C04.flowRecord_roundtrip', 'Goflow.C04.counterRecord_roundtrip', 'Goflow.C04.sample_roundtrip', 'Goflow.C04.roundtrip', 'Goflow.C04.exampleDatagram_wf'],
-    generators=[dict(name="C04", quick=2000, thorough=150000)],
+    generators=[dict(name="C04", quick=4000, thorough=150000)],
     harness=["impl"],
     level_text="Theorem roundtrip: decodeMessageVersion (encode d) = ok (expected d) for every well-formed sFlow v5 datagram (all five sample kinds, eleven flow record kinds, counter records), plus the differential run against the Go decoder.",
 )
@@ -40,7 +40,7 @@ PROPS["C07"] = dict(
               'Goflow.C07E2E.netflow_pipe_conversion_failure', 'Goflow.C07E2E.recordsConvert_of_widths', 'Goflow.C07E2E.netflow_auto_eq',
               'Goflow.C07E2E.sflow_pipe_messages', 'Goflow.C07E2E.sflow_pipe_messages_default', 'Goflow.C07E2E.sflow_pipe_conversion_failure', 'Goflow.C07E2E.sflow_no_output_on_error',
               'Goflow.C07E2E.msgWFK_sound', 'Goflow.C07E2E.history_step', 'Goflow.C07E2E.history_counts', 'Goflow.C07E2E.history_counts_default', 'Goflow.C07E2E.history_counts_get'],
-    generators=[dict(name="C07", quick=60, thorough=4000)],
+    generators=[dict(name="C07", quick=150, thorough=4000)],
     harness=["impl"],
     level_text="Theorems: message count = record count and order for v5, v9 / IPFIX and sFlow, never more messages than complete records for any byte string. End to end against the wire encoders of the specification side (C07E2E): for every well-formed v5 / v9 / IPFIX / sFlow datagram the pipe emits exactly, in wire order, the stamped conversion of each flow record it carries (v5_pipe_messages incl. datagrams cut inside a record, netflow_pipe_messages with unknown-template sets yielding none and template-not-found, sflow_pipe_messages), nothing at all when a conversion fails, and history_counts: along every history of well-formed datagrams of several exporters the i-th call emits the count the specification-side template knowledge predicts. Histories with count oracles are the tie.",
 )
@@ -56,7 +56,7 @@ PROPS["C10"] = dict(
               'Goflow.C10Trans.parseIPv6HeaderFragment_eq', 'Goflow.C10Trans.parseIPv6HeaderRouting_eq', 'Goflow.C10Trans.parseTCP_eq', 'Goflow.C10Trans.parseUDP_eq',
               'Goflow.C10Trans.parseGRE_eq', 'Goflow.C10Trans.parseTeredoDst_eq', 'Goflow.C10Trans.parseGeneve_eq', 'Goflow.C10Trans.parseICMP_eq', 'Goflow.C10Trans.parseICMPv6_eq',
               'Goflow.C10Trans.translated_parsers_eq', 'Goflow.C10Trans.nextParserEtype_eq', 'Goflow.C10Trans.nextParserProto_eq'],
-    generators=[dict(name="C10", quick=150, thorough=10000)],
+    generators=[dict(name="C10", quick=300, thorough=10000)],
     harness=["impl"],
     level_text="Theorems: the bodies of the 14 layer parsers and of the ethertype / protocol dispatchers are TRANSLATED from the Go source into Lean on every run (extract/translate.go, a syntax-directed translation of a Go subset with Go's fixed-width arithmetic and an explicit panic outcome for every index / slice) and proved equal to the hand-written model for every message, byte string and parse configuration (parseX_eq, translated_parsers_eq, nextParserEtype_eq, nextParserProto_eq: no index can go out of range under the parsers' own guards, the loops end within their fuel); parser table and loop body of ParsePacket equal the regenerated ones; guards cover every index; encapsulation flags along parser chains (encap_rule, encap_monotone, encap_preserves_outer); ICMP rules; layer sizes; full_capture (every well-formed fully captured frame of the grammar, incl. extension headers, MPLS, GRE / IP-in-IP nesting, is reported exactly as the frame specification says); truncated captures: trunc_capture_cfg (for every well-formed frame and every capture length n the dissector reports exactly expectedAt f n) and expectedAt_below / trunc_capture (that message is below the full one: every scalar column unset or the true value, every list column a prefix, one size per reported layer with only the last possibly smaller; Etype / VlanId may be those of an outer L2 header), expectedAt_mono. The frame oracle at every capture length ties model and code.",
 )
@@ -64,7 +64,7 @@ PROPS["C10"] = dict(
 PROPS["C06"] = dict(
     modules=["Proofs.C06"],
     theorems=['Goflow.C06.templateKey_injective', 'Goflow.C06.store_refines', 'Goflow.C06.latest_wins', 'Goflow.C06.isolation', 'Goflow.C06.addTemplates_other', 'Goflow.C06.unknown_template', 'Goflow.C06.exporter_isolation', 'Goflow.C06.templateKey_source'],
-    generators=[dict(name="C06", quick=40, thorough=3000)],
+    generators=[dict(name="C06", quick=120, thorough=3000)],
     harness=["impl"],
     level_text="Theorems: the template store refines a map keyed by (version, domain, id) per exporter; latest announcement wins; announcements never affect another key or exporter. Histories (re-announcements, broken-tail datagrams, foreign ids) are the tie.",
 )
@@ -81,7 +81,7 @@ PROPS["C08"] = dict(
 PROPS["C09"] = dict(
     modules=["Proofs.C09"],
     theorems=['Goflow.C09.record_eq_ref', 'Goflow.C09.records_eq_ref', 'Goflow.C09.sample_eq_ref', 'Goflow.C09.expanded_sample_eq_ref', 'Goflow.C09.non_flow_samples_yield_nothing', 'Goflow.C09.as_rules', 'Goflow.C09.conversion_source_matches'],
-    generators=[dict(name="C09", quick=400, thorough=40000)],
+    generators=[dict(name="C09", quick=800, thorough=40000)],
     harness=["impl"],
     level_text="Theorems: record_eq_ref, records_eq_ref, sample_eq_ref, expanded_sample_eq_ref, non_flow_samples_yield_nothing, as_rules — sFlow samples map as documented for every sample and record list (frames inside raw headers are C10's subject).",
 )
@@ -89,7 +89,7 @@ PROPS["C09"] = dict(
 PROPS["C11"] = dict(
     modules=["Proofs.C11"],
     theorems=['Goflow.C11.rates_refine', 'Goflow.C11.rate_zero_before_any', 'Goflow.C11.rate_of_message', 'Goflow.C11.rate_isolation', 'Goflow.C11.search_order', 'Goflow.C11.v5_rate', 'Goflow.C11.samplingKey_source'],
-    generators=[dict(name="C11", quick=40, thorough=3000)],
+    generators=[dict(name="C11", quick=120, thorough=3000)],
     harness=["impl"],
     level_text="Theorems: rates_refine (the sampling state is a map keyed by version and domain per exporter address), rate_of_message, rate_isolation, search_order (305, 50, 34; reduced-size encodings), v5_rate. Histories with a reference map are the tie.",
 )
@@ -100,7 +100,7 @@ PROPS["C12"] = dict(
               "Goflow.C12Pool.decodeFlowP_eq", "Goflow.C12Pool.sent_formatter", "Goflow.C12Pool.history_pool_free",
               "Goflow.C12Pool.pool_content_irrelevant", "Goflow.C12Pool.take_plain", "Goflow.C12Pool.decodeFlowP_plain", "Goflow.C12Pool.history_plain", "Goflow.C12Pool.leak_without_reset",
               "Goflow.C12Pool.state_inventory"],
-    generators=[dict(name="C12", quick=60, thorough=4000)],
+    generators=[dict(name="C12", quick=150, thorough=4000)],
     harness=["impl"],
     confirm_alone=True,
     level_text="Theorems: reset_total, pool_independent (the messages of a datagram are a function of the datagram, the receive metadata, the configuration and the exporter's templates and rates only), sflow_stateless; with the message pool inside the model (Goflow/Pool.lean: sync.Pool with arbitrary content, an oracle for every Get, Reset, the converters writing into the message they are given, Produce's stamps, the deferred Commit): history_pool_free — for every history, every initial pool and every oracle the outputs equal those of the pool-less model; leak_without_reset shows the Reset carries it; state_inventory ties the model's inventory of what outlives a datagram (members of the pooled message, Get / Put sites with the statement after each Get, FlowMessage.Reset, fields of pipes / producer / template and sampling systems, package-level variables) to the source on every run. Histories with pool poisoning, half-failed datagrams and custom fields printed as JSON / text are the tie, and a differing stateless datagram is re-run alone in a fresh process.",
@@ -118,7 +118,7 @@ PROPS["C13"] = dict(
               "Goflow.C13.Grammar.valid_sound", "Goflow.C13.Grammar.valid_complete", "Goflow.C13.Grammar.valid_iff",
               "Goflow.C13.Grammar.formatJSON_is_json_object", "Goflow.C13.Grammar.default_is_json_object",
               "Goflow.C13.Grammar.jsonQuote_is_json_string", "Goflow.C13.Grammar.decimal_is_json_number"],
-    generators=[dict(name="C13", quick=40, thorough=1500)],
+    generators=[dict(name="C13", quick=100, thorough=1500)],
     harness=["impl"],
     level_text="Theorems: frame_split / stream_roundtrip (a stream of N frames reads back as the N messages, unmarshal_marshal with a reader written from the protobuf encoding rules), jsonQuote_valid (every byte string is written as one JSON string literal), formatJSON_valid_sharp (the JSON form is accepted by the recogniser for every formatter with plain names and every message whose list-valued fields are printed as arrays), default_valid (unconditional for the default configuration), forms_agree (JSON and text are two syntaxes of one list of rendered fields). The notion of well-formed JSON is declarative: RFC 8259 as inductive predicates over bytes (Goflow/Spec/JsonGrammar.lean), with valid_iff — the executable recogniser accepts exactly the texts of the grammar — and formatJSON_is_json_object / default_is_json_object: the JSON form is one JObject. PARTIAL only in that the agreement of this grammar with Go's encoding/json (byte-level strings, no UTF-8 check) is compared on edge cases and mutations, the renderings to the documentation by oracles computed with Python's ipaddress / datetime.",
 )
@@ -237,7 +237,7 @@ PROPS["C01"] = dict(
               "Goflow.C01.wrapped_history_safe", "Goflow.C01.wrapped_history_all_safe", "Goflow.C01.recovered_only_if_insane",
               "Goflow.C01.recovered_state", "Goflow.C01.after_recovered", "Goflow.C01.recovered_rates_untouched",
               "Goflow.C01.recovered_templates", "Goflow.C01.decoder_wrapper_idle"],
-    generators=[dict(name="C01", quick=40, thorough=3000)],
+    generators=[dict(name="C01", quick=60, thorough=3000)],
     harness=["impl"],
     level_text="Theorems: for every byte string, every template / sampling state and every history the decoders, the dissector, the conversion and the pipes of the model end in a result or a returned error (panic and fuel exhaustion are explicit outcomes of the model and proved unreachable; loops need at most 2|d|+3 iterations) — without mappings (pipe_history_safe) and with mappings under Sane: non-negative bit offsets / lengths, destinations other than the two unexported struct members (pipe_history_sane). For EVERY configuration the loader accepts (Proofs/C01Any.lean): pipe_any_total — no loop runs out of fuel, whatever the mappings; with the pipes wired as main.go wires them (Goflow/Wrapped.lean: WrapPanicProducer, PanicDecoderWrapper) wrapped_history_all_safe — every outcome along every history is a result, a returned error or a recovered panic, never an escaping one; recovered_state / after_recovered / recovered_rates_untouched / recovered_templates — what a recovered datagram leaves (templates learned, no rate written, messages dropped) and that the next datagram is processed from exactly that state; recovered_only_if_insane. PARTIAL only in that wall-clock time of the real process is watched by a watchdog, not proved.",
 )
@@ -249,7 +249,7 @@ PROPS["C02"] = dict(
               "Goflow.C02Cost.cost_within_budget", "Goflow.C02Cost.cost_within_budget_udp", "Goflow.C02Cost.Netflow.netflow_cost_bound", "Goflow.C02Cost.Sflow.sflow_cost_bound",
               "Goflow.C02Cost.V5.v5_cost_bound", "Goflow.C02Cost.produce_cost_bound", "Goflow.C02Cost.Netflow.netflow_split", "Goflow.C02Cost.Sflow.sflow_split", "Goflow.C02Cost.V5.v5_split",
               "Goflow.C02Cost.uncapped_cost_unbounded"],
-    generators=[dict(name="C02", quick=25, thorough=2500)],
+    generators=[dict(name="C02", quick=50, thorough=2500)],
     harness=["impl"],
     count_all=True,
     level_text="Theorems: an allocation COST MODEL (Goflow/Cost.lean: every make / append / boxing site of the three decoders, the conversion and the pipes, charged in the order the Go code allocates — a make before its elements are read, so failed decodes have paid; element sizes from unsafe.Sizeof, append growth over-approximated by 5.5x) and cost_within_budget: for every pipe, state, exporter and every byte string of at most 16000 bytes (the receive buffer is 9000) the modelled cost is at most 16 MiB + 256 x length x (1 + widest template the datagram can reference); per-decoder bounds, the share of the conversion not budgeted twice (netflow_split, sflow_split, v5_split), uncapped_cost_unbounded (the caps carry it); make_sites_capped etc. on the regenerated make sites. Tie: the real allocator is measured per datagram (runtime.MemStats.TotalAlloc around DecodeFlow) and compared on every run with the budget of the property at the widest template of the model (oracle) and with 2 x modelled cost + 64 KiB (validation of the cost model: a site missing from the model shows up). PARTIAL in that the allocator itself (size classes, map growth, the Prometheus registry) is measured, not modelled; above ~17 KB (unreachable through the 9000-byte receiver) the real code exceeds the budget — recorded as an observation.",
